@@ -172,3 +172,189 @@ func runExtSel(e *env) error {
 	}
 	return nil
 }
+
+// extCands describes the objects of a package scope for one extend name (what pkgload.GetMatching looks at).
+func extCands(scope *types.Scope, pattern string, unexportedAccessible bool, convType types.Type) (*sx.Node, bool) {
+	rx := regexp.MustCompile(pattern)
+	_, literal := rx.LiteralPrefix()
+	cands := sx.H("cands")
+	for _, name := range scope.Names() {
+		obj := scope.Lookup(name)
+		loc := rx.FindStringIndex(name)
+		full := len(loc) == 2 && loc[0] == 0 && loc[1] == len(name)
+		accessible := token.IsExported(name) || unexportedAccessible
+		on := sx.H("obj", sx.H("accessible", sx.B(accessible)))
+		sig, isFunc := obj.Type().(*types.Signature)
+		on.Add(sx.H("func", sx.B(isFunc)))
+		pn, rn := sx.H("params"), sx.H("results")
+		tp := false
+		if isFunc {
+			tp = sig.TypeParams().Len() > 0
+			for i := 0; i < sig.Params().Len(); i++ {
+				p := sig.Params().At(i)
+				isConv := convType != nil && types.Identical(p.Type(), convType)
+				pn.Add(sx.H("p", sx.S(p.Name()), sx.S(p.Type().String()), sx.B(isConv), sx.B(false)))
+			}
+			for i := 0; i < sig.Results().Len(); i++ {
+				t := sig.Results().At(i).Type()
+				rn.Add(sx.H("r", sx.S(t.String()), sx.B(t.String() == "error")))
+			}
+		}
+		on.Add(sx.H("typeparams", sx.B(tp)), pn, rn)
+		cands.Add(sx.H("c", sx.S(name), sx.B(full), on))
+	}
+	return cands, literal
+}
+
+const extListQDecls = `import "example.org/extlist/p"
+
+func ExtAToB(s p.C) p.A          { return p.A{} }
+func ExtCToA(s p.B) p.A          { return p.A{} }
+func OnlyQ(s p.B) p.C            { return p.C{} }
+func ExtTwoSources(s p.A, t p.B) p.C { return p.C{} }
+func hidden(s p.A) p.C           { return p.C{} }
+`
+
+// The extend-LIST campaign (C06, C14): converters with several extend names (one line, several lines, a second package
+// declaring functions with the same identifiers, invalid names before and after valid ones, converter-level and global
+// lines): the extend list the real configuration stage ends up with (package and name of every entry, in order) or its
+// refusal, vs Gv.Signature.extendList over the package scopes as the harness' own load sees them.
+func runExtList(e *env) error {
+	const mod = "example.org/extlist"
+	q := mod + "/q:"
+	lineSets := [][]string{
+		{"ExtAToB OtherAToB"}, {"OtherAToB ExtAToB"}, {"ExtAToB", "ExtCToA"}, {"ExtAToB ExtAToB"},
+		{q + "ExtAToB ExtAToB"}, {"ExtAToB " + q + "ExtAToB"}, {q + "ExtAToB", "ExtAToB"}, {"ExtAToB", q + "ExtAToB", "ExtCToA " + q + "ExtCToA"},
+		{q + "Ext.* Ext.*"}, {"Ext.* " + q + "Ext.*"}, {"Ext.*", q + "ExtAToB", "ExtAToB"}, {q + "OnlyQ ExtAToB"}, {"ExtAToB " + q + "ExtAToB ExtAToB"},
+		{"ExtTwoSources ExtAToB"}, {"ExtAToB ExtTwoSources"}, {"ExtTwoSources", "ExtAToB"}, {"ExtAToB", "ExtTwoSources"},
+		{"extNoResult ExtAToB"}, {"ExtThreeResults ExtAToB"}, {"ExtGeneric ExtAToB"}, {"ExtVarNotFunc ExtAToB"}, {"ExtTypeNotFunc ExtAToB"},
+		{"Nope ExtAToB"}, {"ExtAToB Nope"}, {"Nope.* ExtAToB"}, {"ExtAToB Nope.*"}, {"extAToC ExtAToB"}, {"ExtAToB extAToC"},
+		{q + "ExtTwoSources ExtAToB"}, {q + "hidden ExtAToB"}, {q + "Nope " + q + "ExtAToB"}, {q + "hid.* ExtAToB"},
+		{"ExtThreeResults ExtGeneric ExtAToB"}, {"ExtAToB OtherAToB ExtCToA extBToC"}, {"ext.* Ext.*"}, {"ExtWithCtx ExtAToB"},
+	}
+	e.rep.Rule += "; extend lists: " + fmt.Sprint(len(lineSets)) + " sets of extend lines (several names per line, several lines, the same identifiers in a second package, unusable names before and after usable ones) on interface converters, variables blocks and as global settings: package and name of every entry of the real configuration stage's extend list, in order, or its refusal, vs Gv.Signature.extendList"
+	type ec struct {
+		name   string
+		lines  []string
+		vars   bool
+		global bool
+	}
+	for _, global := range []bool{false, true} {
+		root := filepath.Join(e.scratch, fmt.Sprintf("extlist%v", global))
+		var conv strings.Builder
+		var cases []ec
+		files := scratch.Tree{"go.mod": "module " + mod + "\n\ngo 1.18\n", "p/decls.go": "package p\n\n" + extSelDecls, "q/decls.go": "package q\n\n" + extListQDecls}
+		var globals []string
+		sets := lineSets
+		if global {
+			// one global line set for the whole run, followed by converter-level lines
+			globals = []string{"extend ExtCToA " + q + "ExtAToB"}
+			sets = lineSets[:14]
+		}
+		for i, ls := range sets {
+			n := fmt.Sprintf("Conv%d", i)
+			var lines strings.Builder
+			for _, l := range ls {
+				lines.WriteString("// goverter:extend " + l + "\n")
+			}
+			fmt.Fprintf(&conv, "// goverter:converter\n%stype %s interface {\n\tConvert(source A) B\n}\n\n", lines.String(), n)
+			cases = append(cases, ec{n, ls, false, global})
+			vf := fmt.Sprintf("p/vars%d.go", i)
+			files[vf] = fmt.Sprintf("package p\n\n// goverter:variables\n%svar (\n\tVarConv%d func(source A) B\n)\n", lines.String(), i)
+			cases = append(cases, ec{"vars@" + fmt.Sprintf("vars%d", i), ls, true, global})
+		}
+		files["p/conv.go"] = "package p\n\n" + conv.String()
+		if err := scratch.Write(root, files); err != nil {
+			return err
+		}
+		b := gvx.RunBatch(root, gvx.Options{Patterns: []string{"./p", "./q"}, Global: globals})
+		if b.DocsErr != nil || b.LoadErr != nil {
+			return fmt.Errorf("extlist: scratch packages do not load: %v %v", b.DocsErr, b.LoadErr)
+		}
+		pp, pq := b.Pkgs[mod+"/p"], b.Pkgs[mod+"/q"]
+		if pp == nil || pp.Types == nil || pq == nil || pq.Types == nil {
+			return fmt.Errorf("extlist: packages not loaded by the harness")
+		}
+		byKey := map[string]*gvx.ConvOutcome{}
+		for _, oc := range b.Outcomes {
+			k := oc.Raw.InterfaceName
+			if k == "" {
+				k = "vars@" + strings.TrimSuffix(filepath.Base(oc.Raw.FileName), ".go")
+			}
+			byKey[k] = oc
+		}
+		var reqs, impl []*sx.Node
+		var descr []map[string]any
+		for _, c := range cases {
+			oc := byKey[c.name]
+			if oc == nil {
+				return fmt.Errorf("extlist: converter %s not found", c.name)
+			}
+			var im *sx.Node
+			switch {
+			case oc.Stage == "config":
+				msg := oc.Err
+				switch {
+				case strings.Contains(msg, "does not have methods with names that match"):
+					im = sx.H("err", sx.A("noMatch"))
+				case strings.Contains(msg, "does not exist in package"):
+					im = sx.H("err", sx.A("notFound"))
+				default:
+					im = sx.H("err", sx.A(classifyParseErr(strings.TrimSpace(lastLine(msg)))))
+				}
+			case oc.Conv == nil:
+				im = sx.H("err", sx.A("no-config:"+oc.Stage))
+			default:
+				im = sx.H("ok")
+				for _, d := range oc.Conv.Extend {
+					im.Add(sx.S(d.Package + ":" + d.Name))
+				}
+			}
+			var convType types.Type
+			if !c.vars {
+				convType = pp.Types.Scope().Lookup(c.name).Type()
+			}
+			req := sx.H("extlist", sx.I(len(reqs)),
+				sx.H("opts", sx.H("params", sx.A("required")), sx.H("multi", sx.B(false)), sx.H("allowtp", sx.B(false)), sx.H("update", sx.S("")), sx.Strs("localctx", nil)))
+			var all []string
+			for _, g := range globals {
+				all = append(all, strings.TrimPrefix(g, "extend "))
+			}
+			all = append(all, c.lines...)
+			for _, l := range all {
+				for _, name := range strings.Fields(l) {
+					pkg, pat, scope := mod+"/p", name, pp.Types.Scope()
+					// the output of a variables block is the declaring package p: its unexported objects are accessible
+					unexp := c.vars
+					if strings.HasPrefix(name, q) {
+						pkg, pat, scope, unexp = mod+"/q", strings.TrimPrefix(name, q), pq.Types.Scope(), false
+					}
+					cands, literal := extCands(scope, pat, unexp, convType)
+					req.Add(sx.H("entry", sx.H("pkg", sx.S(pkg)), sx.H("literal", sx.B(literal)), sx.H("lit", sx.S(pat)), cands))
+				}
+			}
+			reqs = append(reqs, req)
+			impl = append(impl, im)
+			descr = append(descr, map[string]any{"converter": c.name, "extend_lines": c.lines, "global_lines": globals, "variables_block": c.vars})
+			e.rep.Count("extlist." + im.Head())
+			e.rep.Nontrivial(fmt.Sprint(c.name, c.lines, global))
+		}
+		answers, err := drv.Run(reqs)
+		if err != nil {
+			return err
+		}
+		e.rep.Eval(len(reqs))
+		for i, a := range answers {
+			if a.String() != impl[i].String() {
+				d := descr[i]
+				d["implementation"] = impl[i].String()
+				d["model"] = a.String()
+				d["declarations_p"] = extSelDecls
+				d["declarations_q"] = extListQDecls
+				d["broken"] = "correspondence " + e.prop + ": the extend list of the real configuration stage (config.parseConverterLine + pkgload.GetMatching) vs Gv.Signature.extendList"
+				e.rep.Violation("", d, false)
+			}
+		}
+	}
+	return nil
+}
